@@ -543,6 +543,10 @@ package server
 //@ func (*roaManager).HandleROAEvent
 //@   claims at-call
 //@   at-call time.AfterFunc( requires client.timer == nil || called(Stop)
+// "ROAs of a cache that stays away are purged when its lifetime runs out": the purge is for a lifetime timer that is
+// still armed - once End of Data has come in (which stops the timer and forgets it) a timeout event that was already
+// on its way is void, also when the cache came back with the same session id
+//@   at-call ^m.table.DeleteAll(client.host) requires client.timer != nil
 
 // =============================================================================================
 // C10 - "what is read back equals what was configured": the action type of an ext-community / large-community action
